@@ -10,7 +10,11 @@ ALL = [f"C{i:02d}" for i in range(1, 21)]
 NA_REASONS = json.load(open("not_applicable.json")) if os.path.exists("not_applicable.json") else {}
 checks = []
 na = []
+CLAIMED = json.load(open("claimed.json"))
 for pid in ALL:
+    if pid not in CLAIMED:
+        na.append(dict(property_id=pid, reason=NA_REASONS.get(pid, "contracts for this property are under construction in this round (not yet claimed; see DESIGN.md section 5)")))
+        continue
     if not os.path.exists(f"contracts/{pid}.py"):
         na.append(dict(property_id=pid, reason=NA_REASONS.get(pid, "contracts for this property are not built yet (work in progress; see DESIGN.md section 5)")))
         continue
